@@ -5,7 +5,7 @@ use crate::infra::td::*;
 use crate::infra::*;
 use serde_json::{json, Value};
 
-pub const RULE: &str = "random histories of insert / insert_weighted (weights over 12 orders of magnitude, incl. zero weights) / reads at random positions / clear, for K0..K3, delta from 1.1 (total fusion) to 1e4 (no fusion), backlog 0..1000; double-double reference accumulation; count/sum/mean within 4*n*eps_mach*sum|w*x| (exact for unit weights), min/max exact, zero-weight inserts leave every observable bit-identical, is_empty iff no positive weight since creation/clear; checked after every operation for short histories and at random positions for long ones. non-trivial = history with >= 1 fuse and >= 1 weighted insert or interleaved read; distinct = (config, history) hashes";
+pub const RULE: &str = "random histories of insert / insert_weighted (weights over 12 orders of magnitude, incl. zero weights, subnormal weights, 2^54, and rare extreme values (1e25) of weight 1e-15..1e-18) / reads at random positions / clear, for K0..K3, delta from 1.1 (total fusion) to 1e4 (no fusion), backlog 0..1000; double-double reference accumulation; count/sum/mean within 4*n*eps_mach*sum|w*x| (exact for unit weights), min/max exact, zero-weight inserts leave every observable bit-identical, is_empty iff no positive weight since creation/clear; checked after every operation for short histories and at random positions for long ones. non-trivial = history with >= 1 fuse and >= 1 weighted insert or interleaved read; distinct = (config, history) hashes";
 pub const ASSUMPTIONS: &[&str] = &["reference sums use TwoSum/FMA error-free transformations (double-double)"];
 
 #[derive(Clone, Debug)]
@@ -60,7 +60,7 @@ fn check(t: &dyn Td, r: &Ref) -> Option<(String, String)> {
         if cnt != r.n as f64 {
             return Some(("C16/count/unit-weights-not-exact".into(), format!("count() = {} after {} unit-weight inserts", cnt, r.n)));
         }
-    } else if (cnt - wref).abs() > 4.0 * nf * eps * wref {
+    } else if (cnt - wref).abs() > 4.0 * nf * eps * wref + f64::MIN_POSITIVE {
         return Some(("C16/count".into(), format!("count() = {:e} but the weights sum to {:e} (tolerance {:e})", cnt, wref, 4.0 * nf * eps * wref)));
     }
     if t.is_empty() != (r.n == 0) {
@@ -99,7 +99,12 @@ fn observables(t: &dyn Td) -> Vec<u64> {
         for q in [0.0, 0.1, 0.5, 0.9, 1.0] {
             v.push(t.quantile(q).to_bits());
         }
-        v.push(t.cdf(t.quantile(0.3)).to_bits());
+        let q3 = t.quantile(0.3);
+        if !q3.is_nan() {
+            // (a digest whose total weight is subnormal returns NaN here: half a centroid's weight
+            // underflows to 0 — outside C15's weight range, see DESIGN §8)
+            v.push(t.cdf(q3).to_bits());
+        }
     }
     v
 }
@@ -133,6 +138,14 @@ fn item(ctx: &Ctx, i: usize, rep: &mut Report) {
             Op::Read
         } else if x < 0.10 {
             Op::Zero(val)
+        } else if weighted && x < 0.12 {
+            // corner weights: subnormal positive weights, and rare extreme values of tiny weight
+            match r.below(4) {
+                0 => Op::InsW(val * 3.0, *r.pick(&[5e-324, 1e-310, 2e-308])),
+                1 => Op::InsW(1e25 * (1.0 + r.f64()), 10f64.powf(-15.0 - 3.0 * r.f64())),
+                2 => Op::InsW(-1e22 * (1.0 + r.f64()), 10f64.powf(-15.0 - 3.0 * r.f64())),
+                _ => Op::InsW(val, 2f64.powi(54)),
+            }
         } else if weighted && x < 0.7 {
             let w = 10f64.powf((r.f64() * 2.0 - 1.0) * wexp);
             Op::InsW(val, w)
